@@ -14,11 +14,17 @@ PInit == [passed |-> FALSE, inside |-> NoBlk]
 GateAfter(ps, st, start) ==
   ps.passed \/ (st.k = "new" /\ st.b.h >= start) \/ st.k = "undo"
 
-\* one step: the new pipeline state and the messages it sends
-PStep(ps, st, start) ==
+\* gate.go shouldSendOutputs: once the gate is open the outputs flow - but, for a request WITHOUT start cursor, never for a
+\* block below the gate block: that client holds nothing below its start block, so a reorganisation reaching below it must
+\* not make those blocks flow (repair of D11; a resumed client does hold blocks below the new stream's start: MCReconnect)
+SendsOutputs(passed, st, start, resumed) == passed /\ (resumed \/ st.b.h >= start)
+
+\* one step: the new pipeline state and the messages it sends (resumed: the request carries a resolved start cursor)
+PStep(ps, st, start, resumed) ==
   LET passed == GateAfter(ps, st, start) IN
   IF st.k = "new" THEN
-       [ps |-> [passed |-> passed, inside |-> NoBlk], msgs |-> IF passed THEN <<[k |-> "data", b |-> st.b]>> ELSE <<>>]
+       [ps |-> [passed |-> passed, inside |-> NoBlk],
+        msgs |-> IF SendsOutputs(passed, st, start, resumed) THEN <<[k |-> "data", b |-> st.b]>> ELSE <<>>]
   ELSE IF st.k = "undo" THEN
        \* handleStepUndo: the signal is sent once per reorg (insideReorgUpTo), whatever the gate says
        [ps |-> [passed |-> passed, inside |-> st.j],
@@ -27,10 +33,10 @@ PStep(ps, st, start) ==
   ELSE [ps |-> [ps EXCEPT !.passed = passed], msgs |-> <<>>]
 
 \* all the messages of a step sequence
-RECURSIVE PMsgs(_, _, _)
-PMsgs(ps, steps, start) ==
+RECURSIVE PMsgs(_, _, _, _)
+PMsgs(ps, steps, start, resumed) ==
   IF steps = <<>> THEN <<>>
-  ELSE LET r == PStep(ps, Head(steps), start) IN r.msgs \o PMsgs(r.ps, Tail(steps), start)
+  ELSE LET r == PStep(ps, Head(steps), start, resumed) IN r.msgs \o PMsgs(r.ps, Tail(steps), start, resumed)
 
 ------------------------------------------------------------------------
 (* A request with a start cursor: transcription of resolveStartBlockNum (pipeline/resolve.go) for a cursor on a block that  *)
